@@ -88,6 +88,16 @@ def dataset(name):
             for r in range(reps):
                 rows.append((2.0 ** k, 2.0 ** (14 + 3 * (10 - k)), True))
         return pd.DataFrame(rows, columns=['load', 'cycles', 'fracture'])
+    if name == 'exact10':     # on a Basquin line with slope 5 up to floating-point rounding (decimal loads): the residuals are ~1e-16, not exactly 0
+        rows = [(L, 1e6 * (L / 300.0) ** -5.0, True) for L in (400.0, 350.0, 300.0) for r in range(3)]
+        return pd.DataFrame(rows, columns=['load', 'cycles', 'fracture'])
+    if name == 'flat':        # a very flat curve (k = 38) with scatter and run-outs on two mixed levels: ND SD^k is of the order 1e100 in MPa and beyond 1e308 in Pa
+        rng = np.random.RandomState(777)
+        rows = []
+        for L, nfrac, nrun in ((300.0, 4, 0), (296.0, 4, 0), (292.0, 3, 1), (288.0, 2, 2), (284.0, 0, 4)):
+            rows += [(L, float(np.round(1e6 * (L / 290.0) ** -38.0 * 10 ** rng.normal(0, 0.1))), True) for r in range(nfrac)]
+            rows += [(L, 1e7, False) for r in range(nrun)]
+        return pd.DataFrame(rows, columns=['load', 'cycles', 'fracture'])
     rng = np.random.RandomState(12345 if name == 'scatter' else 4711)
     rows = []
     if name == 'scatter':     # scatter, no run-outs
@@ -109,7 +119,7 @@ def dataset(name):
     return pd.DataFrame(rows, columns=['load', 'cycles', 'fracture'])
 
 
-ANALYZERS = {'exact': ['Elementary', 'Probit'], 'scatter': ['Elementary', 'Probit', 'MaxLikeFull'], 'mixed': ['Elementary', 'Probit', 'MaxLikeInf', 'MaxLikeFull']}
+ANALYZERS = {'exact': ['Elementary', 'Probit'], 'exact10': ['Elementary', 'Probit'], 'flat': ['Elementary', 'Probit'], 'scatter': ['Elementary', 'Probit', 'MaxLikeFull'], 'mixed': ['Elementary', 'Probit', 'MaxLikeInf', 'MaxLikeFull']}
 TAU = {'Elementary': 2, 'Probit': 2, 'MaxLikeInf': 160, 'MaxLikeFull': 160}
 
 
@@ -143,7 +153,7 @@ def analyze(df, analyzer):
             except Exception:
                 gain = 0
     rec = {k: mlog(wc[k]) for k in ('SD', 'ND', 'k_1', 'TN', 'TS')}
-    rec['nan_scatter'] = bool(rec['TN'] == NAN and rec['TS'] == NAN)
+    rec['nan_scatter'] = bool(np.isnan(float(wc['TN'])) and np.isnan(float(wc['TS'])))      # the known finding is about nan; an infinite or zero scatter stays what it is (NAN sentinel -> rejected)
     return rec, gain, {k: (float(wc[k]) if np.isfinite(float(wc[k])) else str(wc[k])) for k in ('SD', 'ND', 'k_1', 'TN', 'TS')}
 
 
@@ -165,14 +175,14 @@ def _walk(args):
         def normal(rec):
             # known finding C18-exact-nan: on exactly-Basquin data the scatter comes back as nan (instead of 1) whenever the regression residual is exactly zero;
             # the walk is validated with the value the property expects (1, i.e. 0 in log units) and the finding is reported once
-            if ds == 'exact' and rec.pop('nan_scatter'):
+            if ds in ('exact', 'exact10') and rec.pop('nan_scatter'):
                 nan_seen[0] = True
                 rec['TN'] = rec['TS'] = 0
             rec.pop('nan_scatter', None)
             return rec
         rec, gain, raw = analyze(current(), analyzer)
         rec = normal(rec)
-        tr = {'tau': TAU[analyzer], 'check_scatter': True, 'exact_slope': mlog(3.0) if ds == 'exact' else 0, 'lnL_gain_micro': gain, 'start': rec, 'events': []}
+        tr = {'tau': TAU[analyzer], 'check_scatter': True, 'exact_slope': mlog(3.0) if ds == 'exact' else mlog(5.0) if ds == 'exact10' else 0, 'lnL_gain_micro': gain, 'start': rec, 'events': []}
         detail = [{'estimate': raw}]
         for a, arg in hist:
             if a == 'ScaleLoads':
@@ -250,7 +260,7 @@ def run(chk):
     for ds, ans in ANALYZERS.items():
         mine = [w for w in walks if w[0] == ds]
         # core walks: every action once, the very small load scale, a distraction followed by a permutation
-        core = [(ds, (('ScaleLoads', 1), ('ScaleCycles', 2), ('Permute', 0))), (ds, (('ScaleLoads', -14), ('Permute', 0), ('ScaleCycles', -1))), (ds, (('Distract', 0), ('Permute', 0), ('ScaleLoads', -2)))]
+        core = [(ds, (('ScaleLoads', 20), ('Permute', 0), ('ScaleLoads', -14))), (ds, (('ScaleLoads', 1), ('ScaleCycles', 2), ('Permute', 0))), (ds, (('ScaleLoads', -14), ('Permute', 0), ('ScaleCycles', -1))), (ds, (('Distract', 0), ('Permute', 0), ('ScaleLoads', -2)))]
         chosen = core + rng.sample(mine, min(per, len(mine)))
         for an in ans:
             for w in chosen:
@@ -298,7 +308,7 @@ def run(chk):
                 acc += 1
                 chk.nontrivial((job[0], job[1], job[2]))
                 continue
-            f = next((f for f in fs if f.get('match') == 'exact_nan' and clause == 'exact_scatter' and tr['start']['TN'] == NAN and tr['start']['TS'] == NAN), None)
+            f = None      # (a nan scatter on exact data is normalised when the walk is recorded and reported under C18-exact-nan; any other non-positive / infinite scatter is rejected here)
             if f:
                 msg = '%s: %s' % (f['id'], f['symptom'])
                 if msg not in chk.known:
